@@ -115,9 +115,14 @@ pub fn explore_case(desc: String, base: &RunCfg, max_paths: u64, body: &dyn Fn()
                 }
             }
             if res.sample_obligations.len() < 12 {
-                // one of each rule, preferring ones with detail
-                for rule in ["ID", "EX", "GR", "ST"] {
-                    if let Some(o) = c.obligations.iter().find(|o| o.rule == rule && !res.sample_obligations.iter().any(|s| s.rule == rule && s.label == o.label)) {
+                // one of each rule, preferring the solver-decided ones that carry a justification
+                for rule in ["GR", "EX", "EN", "ID", "ST"] {
+                    if let Some(o) = c
+                        .obligations
+                        .iter()
+                        .filter(|o| o.rule == rule && !res.sample_obligations.iter().any(|s| s.rule == rule && s.label == o.label))
+                        .max_by_key(|o| o.detail.len().min(1))
+                    {
                         res.sample_obligations.push(o.clone());
                     }
                 }
